@@ -22,6 +22,15 @@ PARTIAL = ['C12_comments_kept_covered_partial: presence of every kept comment is
            '(\\section, \\href, \\item[..], accents, math alphabets: several strip / re-case / re-style their argument) '
            'and matrix cells',
            'C12_math_verbatim_covered_partial: presence of the source of every verbatim formula, same covered positions',
+           'C12_comments_kept_covered2_partial, C12_math_verbatim_covered2_partial (Proofs/Covered2.v): the covered set extended by '
+           'the arguments of the replacement callables that pass an argument through unchanged or wrapped (both arguments of '
+           '\\href, the optional argument of \\item, the title of \\subsection / \\subsubsection / \\paragraph / '
+           '\\subparagraph, both arguments of the uebung formatter, the rendered argument of \\texorpdfstring) and by matrix '
+           'cells (markers without blank at the ends / newline); still partial: presence is FALSE (vm_compute witnesses '
+           'C12_comments_kept_not_covered_witness / C12_math_verbatim_not_covered_witness, each replayed on the real code) for '
+           'accents, math alphabets, the upper-casing \\part / \\chapter / \\section, \\title / \\author / \\date '
+           'without \\maketitle, arguments a template does not mention (\\footnote[..], \\sqrt[..]), arguments of '
+           'environments, and a comment written IN FRONT OF an argument (consumed by the expression parser: not in the tree)',
            'C12_source_level_partial (DESIGN 6/C12 C12_source_level, composed with C02_parse_unparse_partial): documents '
            'of the CORE grammar of C02 (text, groups, macros with mandatory braced arguments, $..$ \\(..\\) \\[..\\], '
            'comments, paragraph breaks) differing only in comment text convert equally for keep_comments=False and '
